@@ -807,7 +807,18 @@ func checkResponseTable(c *Ctx, parse *ssa.Function, cmdOf map[string]string) {
 				return
 			}
 			nKeys++
+			// the table is keyed by the id's own type (a narrower key type means a conversion somewhere)
+			if mt, ok := m.Type().Underlying().(*types.Map); ok && !strings.HasSuffix(types.TypeString(mt.Key(), nil), "amf0.Number") {
+				lossy = fmt.Sprintf("the transaction table of %s is keyed by %s, not by the AMF0 number the id is", core.QualName(fn), mt.Key())
+			}
+			// the key may be computed by a helper (transactionKey(tid)): look at the expression it stands for
+			res := core.NewResolver(false)
 			for v, d := k, 0; d < 6; d++ {
+				if rv := res.V(v); rv != nil {
+					if _, isCv := rv.(*ssa.Convert); isCv || rv != core.StripConv(v) {
+						v = rv
+					}
+				}
 				switch y := v.(type) {
 				case *ssa.ChangeType:
 					v = y.X
